@@ -723,7 +723,9 @@ PROPS = {
     "C12": {
         "units": ["settings"],
         "level": "proof",
-        "falsifier": [],
+        "falsifier": ["settings"],
+        "always_explore": ["settings"],
+        "case_prefixes": ["c12_"],
         "samples": [
             "theorem_c12 / for every setting i: after set_default_values(); bootstrap() the environment holds effective(i) = command line value if any, else configuration file value if any, else the environment's value if any, else the documented default",
             "CommandLineArgument::_parse / postcondition / final(env) == apply_args(old(env), words)  (each word p=v whose p is a documented spelling sets that setting's variable, in order)",
